@@ -207,6 +207,15 @@ pub fn ln64_ok(x: f64, r: f64) -> bool {
     if !(r >= lo && r <= hi) {
         return false;
     }
+    // chord / tangent of ln on [1,2): with x = 2^e m,  e ln2 + (m-1) ln2 <= ln x <= e ln2 + (m-1)   (width <= 0.087)
+    if expo64(x) != -1075 {
+        let m = f64::from_bits((x.to_bits() & 0x000f_ffff_ffff_ffff) | 0x3ff0_0000_0000_0000);
+        let base = e * LN2;
+        let slack = 1e-9 * (e.abs() + 2.0);
+        if !(r >= base + (m - 1.0) * LN2 - slack && r <= base + (m - 1.0) + slack) {
+            return false;
+        }
+    }
     // (x-1)/x <= ln x <= x-1, used on [0.5, 2] where x-1 is exact (Sterbenz); 1e-6 slack for libm error
     if x >= 0.5 && x < 1.0 {
         let d = 1.0 - x;
@@ -245,6 +254,14 @@ pub fn ln32_ok(x: f32, r: f32) -> bool {
     let rd = r as f64;
     if !(rd >= lo && rd <= hi) {
         return false;
+    }
+    if expo32(x) != -150 {
+        let m = f32::from_bits((x.to_bits() & 0x007f_ffff) | 0x3f80_0000) as f64;
+        let base = e * LN2;
+        let slack = 1e-5 * (e.abs() + 2.0);
+        if !(rd >= base + (m - 1.0) * LN2 - slack && rd <= base + (m - 1.0) + slack) {
+            return false;
+        }
     }
     if x >= 0.5 && x < 1.0 {
         let d = 1.0 - x as f64;
